@@ -16,7 +16,7 @@ RULE = ("case = one generated model (server types x base consumptions x utilisat
         "timestamp, coverage, sign, active <= provisioned, classification of every exception by type/message. distinct = digest of "
         "(types, durations, windows, fixed variant); non-trivial = some server or storage had a non-zero need")
 BUDGET = {"quick": 220, "thorough": 1500}
-N = {"quick": 260, "thorough": 4000}
+N = {"quick": 320, "thorough": 4000}
 
 
 def cases(tier, seed):
@@ -26,7 +26,7 @@ def cases(tier, seed):
 def requirements(tier):
     return {"min_counters": {"servers_checked": 300 if tier == "quick" else 4000, "storages_checked": 300, "ledger_hours_compared": 5000,
                              "fixed_just_enough": 40, "fixed_one_short_raised": 40, "deletion_free_models": 80, "deleting_models": 30,
-                             "capacity_exceeded_raised": 10},
+                             "capacity_exceeded_raised": 10, "live_fixed_enough": 30, "live_fixed_short_raised": 30},
             "required_classes": ["srv_autoscaling", "srv_on-premise", "srv_serverless", "windows_disjoint", "windows_overlapping",
                                  "windows_equal", "zero_tail", "short_storage_duration", "deleter"]}
 
@@ -44,7 +44,11 @@ def c04_spec(rnd):
                           base_storage_need=q(rnd.choice([50.37, 1.37]) if deleting else rnd.choice([0, 0, 1.37]), "TB"),
                           storage_capacity=q(rnd.choice([1.13, 0.0013, 0.13]), "TB"), idle_power=q(rnd.choice([0, 0.1]), "W"))
         ram = rnd.choice([16, 128]); cpu = rnd.choice([8, 24]); util = rnd.choice([0.9, 0.5, 1])
-        base_ram = rnd.choice([0, 0.3, 0.3, ram * util * 0.97, ram * util * 0.97, ram * util * 1.2]); base_cpu = rnd.choice([0, 2, 2, cpu * util * 0.5, cpu * util * 0.5, cpu * util * 1.01])
+        base_ram = rnd.choice([0, 0.3, ram * util * 0.97]); base_cpu = rnd.choice([0, 2, cpu * util * 0.5])
+        if rnd.random() < 0.05:
+            base_ram = ram * util * 1.2
+        elif rnd.random() < 0.05:
+            base_cpu = cpu * util * 1.01
         O[f"srv{i}"] = obj("Server", storage=["ref", f"st{i}"], server_type=["s", rnd.choice(["autoscaling", "on-premise", "serverless"])],
                            ram=q(ram, "GB"), compute=q(cpu, "cpu_core"), server_utilization_rate=q(util, "dimensionless"),
                            base_ram_consumption=q(base_ram, "GB"), base_compute_consumption=q(base_cpu, "cpu_core"))
@@ -276,6 +280,32 @@ def run_case(case):
             else:
                 V.append({"kind": f"model with a sufficient fixed instance count rejected: {k}" if not short else f"unexpected rejection: {k}",
                           "object": n, "need": need})
+    # third phase: the same fixed count given by a live assignment on the computed model (honoured exactly or refused)
+    if cands and not V:
+        from ..spec import val
+        kind, n = rnd.choice(cands)
+        need = int(max(S(objs[n].nb_of_instances).values()))
+        short = rnd.random() < 0.5 and need >= 1
+        fx = ["q", float(need - 1 if short else need + rnd.choice([0, 3])), "dimensionless"]
+        try:
+            objs[n].fixed_nb_of_instances = val(fx)
+            if short:
+                V.append({"kind": "live assignment of a fixed instance count one short of the need was accepted silently", "object": n,
+                          "need": need, "fixed": fx[1], "published": sorted(set(S(objs[n].nb_of_instances).values()))[:3]})
+            else:
+                C["live_fixed_enough"] = C.get("live_fixed_enough", 0) + 1
+                spec3 = copy.deepcopy(spec); spec3["objects"][n]["params"]["fixed_nb_of_instances"] = fx
+                V3 = []
+                check_servers(spec3, objs, V3, C); check_storages(spec3, objs, V3, C)
+                for v in V3:
+                    v["after"] = f"live assignment {n}.fixed_nb_of_instances = {fx[1]}"
+                V.extend(V3)
+        except Exception as e:
+            k = classify_exception(e, deleting)
+            if short and k == "fixed_count_exceeded":
+                C["live_fixed_short_raised"] = C.get("live_fixed_short_raised", 0) + 1
+            else:
+                V.append({"kind": f"live assignment of a fixed instance count: unexpected {k}", "object": n, "need": need, "fixed": fx[1]})
     for v in V:
         v["model"] = {n: {k: x for k, x in o["params"].items() if x[0] != "h"} for n, o in spec["objects"].items()
                       if o["cls"] in ("Storage", "Server", "Job")}
